@@ -51,6 +51,10 @@ RespParses(o) == CASE o.id = 1 -> Len(o.body) = 5
 Decide(o) == IF o.kind = "part" /\ filt THEN "none"
              ELSE IF o.kind # "part" /\ o.id \in ResponseIds /\ DOMAIN outstanding # {}     \* parts are never taken for responses
                   THEN (IF RespParses(o) /\ Echo(o) \in DOMAIN outstanding THEN "match" ELSE "none")
+             \* 0x1003 (audio/video attributes) answers 0x9003 but echoes no serial: while any command is outstanding the
+             \* implementation takes it as the response to one of them - whichever its map iteration yields - and writes no reply;
+             \* with nothing outstanding it is an ordinary message and gets its general reply
+             ELSE IF o.kind # "part" /\ o.id = 4099 /\ DOMAIN outstanding # {} THEN (IF Len(o.body) = 10 THEN "matchany" ELSE "none")
              ELSE IF o.id \in ReplyBearing THEN "reply" ELSE "none"     \* HasReply() of the type; the body may still be refused
 AsM(o, n) == [n |-> n, id |-> o.id, ver |-> o.ver, phone |-> o.phone, digits |-> PhoneDigits(o.phone), serial |-> o.serial,
            body |-> o.body, enc |-> 0, kind |-> o.kind, total |-> o.total, no |-> o.no]
@@ -144,8 +148,9 @@ CmdWritten == /\ E.ev = "cmd_written"
                       /\ pser' = (pser + 1) % 65536 /\ Ok
                       /\ UNCHANGED <<filt, rr, x, nmsg, hdr, toReport, toWriter, cur, pend, cbQ, issued, matched, expectRet, returned, activeCb, stopping>>
 RespMatch == /\ E.ev = "resp_match"
-             /\ IF ~(pend = "match" /\ Echo(cur) = E.seq) THEN Fail("ResponseMatchedToWrongCommand")
-                ELSE /\ matched' = Ext2(matched, E.seq, cur) /\ pend' = "none" /\ Ok
+             /\ IF ~((pend = "match" /\ Echo(cur) = E.seq) \/ (pend = "matchany" /\ E.seq \in DOMAIN outstanding))
+                THEN Fail("ResponseMatchedToWrongCommand")
+                ELSE /\ matched' = Ext2(matched, E.seq, IF pend = "matchany" THEN [cur EXCEPT !.kind = "any"] ELSE cur) /\ pend' = "none" /\ Ok
                      /\ UNCHANGED <<filt, rr, x, nmsg, hdr, toReport, toWriter, cur, cbQ, wireQ, pser, issued, written, outstanding, expectRet, returned, activeCb, stopping>>
 WComplete == /\ E.ev = "w_complete"
              /\ IF pend # "none" THEN Fail("WriterSkipped_" \o pend)
@@ -154,7 +159,7 @@ WComplete == /\ E.ev = "w_complete"
                 ELSE IF E.kind = "resp" /\ E.seq \notin DOMAIN matched THEN Fail("CompletionWithoutResponse")
                 ELSE /\ expectRet' = Ext2(expectRet, outstanding[E.seq],
                                           [kind |-> E.kind, seq |-> E.seq,
-                                           echo |-> IF E.kind = "resp" THEN Echo(matched[E.seq]) ELSE -1])
+                                           echo |-> IF E.kind = "resp" /\ matched[E.seq].kind # "any" THEN Echo(matched[E.seq]) ELSE -1])
                      /\ outstanding' = [s \in DOMAIN outstanding \ {E.seq} |-> outstanding[s]]
                      /\ activeCb' = activeCb \cup {E.seq} /\ Ok
                      /\ UNCHANGED <<filt, rr, x, nmsg, hdr, toReport, toWriter, cur, pend, cbQ, wireQ, pser, issued, written, matched, returned, stopping>>
@@ -177,7 +182,8 @@ CmdRet == /\ E.ev = "cmd_ret"
                         ELSE Fail("ReturnWithoutCompletion"))
              ELSE LET r == expectRet[E.k] IN
                   IF r.kind # E.kind THEN Fail("ReturnKind")
-                  ELSE IF E.kind = "resp" /\ ~(E.echo = written[E.k] /\ r.echo = written[E.k]) THEN Fail("OwnResponse")
+                  ELSE IF E.kind = "resp" /\ r.echo # -1 /\ ~(E.echo = written[E.k] /\ r.echo = written[E.k]) THEN Fail("OwnResponse")
+                  ELSE IF E.kind = "resp" /\ r.echo = -1 /\ E.respid # 4099 THEN Fail("OwnResponse")      \* only 0x1003 may be matched without an echo
                   ELSE IF E.kind = "timeout" /\ ~(E.ms >= issued[E.k].tmo - 20 /\ E.ms <= issued[E.k].tmo + issued[E.k].slack) THEN Fail("TimeoutTiming")
                   ELSE /\ returned' = returned \cup {E.k} /\ Ok
                        /\ UNCHANGED <<filt, rr, x, nmsg, hdr, toReport, toWriter, cur, pend, cbQ, wireQ, pser, issued, written, outstanding, matched, expectRet, activeCb, stopping>>
